@@ -13,6 +13,10 @@ Definition val {A B C} (x : A * B * C) : A := fst (fst x).
 Definition wrn {A B C} (x : A * B * C) : B := snd (fst x).
 Definition trc {A B C} (x : A * B * C) : C := snd x.
 
+Lemma val_t {A B C} (x : A) (y : B) (z : C) : val (x, y, z) = x. Proof. reflexivity. Qed.
+Lemma wrn_t {A B C} (x : A) (y : B) (z : C) : wrn (x, y, z) = y. Proof. reflexivity. Qed.
+Lemma trc_t {A B C} (x : A) (y : B) (z : C) : trc (x, y, z) = z. Proof. reflexivity. Qed.
+
 (** the call made by [Integrate] once the limits are ordered *)
 Definition core (f : R -> R) (a b eps : R) (n : nat) : R * bool * list R :=
   asr ROps f n a b eps (simp f a b) (f a) (f b) (f ((a + b) / 2)).
@@ -145,11 +149,11 @@ Proof. intros H. unfold integrate. replace (Z.to_nat depth) with (Z.to_nat 0) by
 Lemma core_inside f n : forall a b eps, a <= b -> List.Forall (fun x => a <= x <= b) (trc (core f a b eps n)).
 Proof.
   induction n as [|n IH]; intros a b eps H.
-  - rewrite core_O. unfold trc. cbn [snd]. repeat constructor; lra.
+  - rewrite core_O. unfold trc. cbn [snd]. repeat (apply List.Forall_cons; [lra|]); apply List.Forall_nil.
   - rewrite core_S. destruct (Rleb _ _).
-    + unfold trc. cbn [snd]. repeat constructor; lra.
+    + unfold trc. cbn [snd]. repeat (apply List.Forall_cons; [lra|]); apply List.Forall_nil.
     + cbv zeta. unfold trc at 1. cbn [snd].
-      constructor; [lra|]. constructor; [lra|].
+      apply List.Forall_cons; [lra|]. apply List.Forall_cons; [lra|].
       apply List.Forall_app. split.
       * eapply List.Forall_impl; [|apply IH; lra]. cbv beta. intros; lra.
       * eapply List.Forall_impl; [|apply IH; lra]. cbv beta. intros; lra.
@@ -161,11 +165,11 @@ Proof.
   destruct (Rtotal_order a b) as [H|[H|H]].
   - rewrite integrate_lt by exact H. unfold trc at 1. cbn [snd].
     rewrite Rmin_left, Rmax_right by lra.
-    repeat (constructor; [lra|]). apply core_inside. lra.
-  - subst b. rewrite integrate_eq. constructor.
+    repeat (apply List.Forall_cons; [lra|]). apply core_inside. lra.
+  - subst b. rewrite integrate_eq. apply List.Forall_nil.
   - rewrite integrate_gt by exact H. unfold trc at 1. cbn [snd].
     rewrite Rmin_right, Rmax_left by lra.
-    repeat (constructor; [lra|]). apply core_inside. lra.
+    repeat (apply List.Forall_cons; [lra|]). apply core_inside. lra.
 Qed.
 
 (** ** Number of evaluations *)
@@ -279,7 +283,7 @@ Proof.
     apply leaf_err; assumption.
   - rewrite core_S. destruct (Rleb_spec (Rabs (S2of f a b - simp f a b)) (15 * eps)) as [Hacc|Hacc].
     + unfold wrn, val. cbn [fst snd]. intros _. apply leaf_err; assumption.
-    + cbv zeta. unfold wrn at 1, val at 1. cbn [fst snd]. intros W. apply orb_false_iff in W. destruct W as [W1 W2].
+    + cbv zeta. rewrite wrn_t, val_t. intros W. apply orb_false_iff in W. destruct W as [W1 W2].
       pose proof (IH a ((a + b) / 2) (eps / 2)) as I1. pose proof (IH ((a + b) / 2) b (eps / 2)) as I2.
       specialize (I1 ltac:(lra) ltac:(lra) ltac:(lra) W1). specialize (I2 ltac:(lra) ltac:(lra) ltac:(lra) W2).
       rewrite (Hadd a b Ha Hab Hb).
@@ -308,15 +312,15 @@ Proof.
   { intros u v Hu Huv Hv. symmetry.
     apply (RInt_Chasles (V := R_CompleteNormedModule)); apply Hex; lra. }
   destruct (Rtotal_order a b) as [H|[H|H]].
-  - rewrite integrate_lt by exact H. unfold wrn at 1, val at 1. cbn [fst snd]. intros W.
+  - rewrite integrate_lt by exact H. rewrite wrn_t, val_t. intros W.
     rewrite Rmin_left, Rmax_right in * by lra. rewrite Rmult_1_l.
     apply (core_err f (RInt f) a b m sg Hsg Hm Hadd Hrem); try lra. exact W.
   - subst b. rewrite integrate_eq. unfold val. cbn [fst]. intros _.
     rewrite RInt_point. unfold zero. cbn. rewrite Rminus_0_r, Rabs_R0. pose proof (Rabs_pos eps). lra.
-  - rewrite integrate_gt by exact H. unfold wrn at 1, val at 1. cbn [fst snd]. intros W.
+  - rewrite integrate_gt by exact H. rewrite wrn_t, val_t. intros W.
     rewrite Rmin_right, Rmax_left in * by lra.
     rewrite <- (opp_RInt_swap f b a) by (apply Hex; lra).
-    unfold opp. cbn.
+    change (opp (RInt f b a)) with (- RInt f b a).
     replace (- (1) * val (core f b a (Rabs eps) (Z.to_nat depth)) - - RInt f b a)
       with (- (val (core f b a (Rabs eps) (Z.to_nat depth)) - RInt f b a)) by ring.
     rewrite Rabs_Ropp.
